@@ -16,11 +16,13 @@ RULE = ('exhaustive enumeration: layer type in {Conv1d, Conv2d, Linear} x every 
         'of the registrable patterns (Conv: unconstrained, depthwise, 3x3/3, user constraint; '
         'Linear: unconstrained, user) in every registration order x layer specs realising all truth '
         'assignments of the constraints (8 for conv, 2 for linear) x default behaviour zero/fail, '
-        'plus the empty specification; each case is one lookup compared with R-lookup. '
+        'plus the empty specification; each case is one lookup compared with R-lookup; plus the '
+        'built-in depthwise / 3x3 constraints against their documented meaning on a grid of grouped '
+        'and channel-multiplier layers. '
         'Non-trivial: at least two patterns registered for the type (order can matter); '
         'distinct = (type, ordered pattern tuple, truth assignment, default).')
 ASSUMPTIONS = ['a "user constraint" is an arbitrary predicate on the layer spec (here: stride == 2)']
-REQUIRED_MONITORS = ['c15.lookup', 'c15.insitu_contract']
+REQUIRED_MONITORS = ['c15.lookup', 'c15.insitu_contract', 'c15.constraint_semantics']
 MIN_NONTRIVIAL = {'quick': 1000, 'thorough': 1000}
 EXHAUSTIVE = {'quick': True, 'thorough': True}
 MAX_WORKERS = 4
@@ -74,6 +76,9 @@ def cases(tier, seed):
                 for default in ('zero', 'fail'):
                     cs.append({'type': tname, 'order': list(order), 'truth': truth,
                                'default': default})
+    # the built-in constraints themselves, against their documented meaning (depthwise: in ==
+    # groups == out; 3x3: every kernel dimension equals 3), on grouped / channel-multiplier layers
+    cs.append({'type': 'constraint-semantics'})
     # in-situ workload: real conversions that look the built-in specs up (contract attached)
     for i in range(6 if tier == 'quick' else 40):
         cs.append({'type': 'insitu', 'i': i, 'seed': seed * 13 + i})
@@ -128,8 +133,53 @@ def worker_setup(ctx):
         result_matches_reference, error=LookupContractBroken)(cs_mod.CostSpec.__getitem__)
 
 
+def run_constraint_semantics(ctx):
+    from plinio.cost import CostSpec
+    from plinio.cost import pattern as P
+    n = 0
+    for Conv, tname in ((nn.Conv1d, 'Conv1d'), (nn.Conv2d, 'Conv2d')):
+        for cin, cout, groups in [(4, 4, 4), (4, 8, 4), (4, 12, 4), (4, 4, 2), (4, 4, 1), (4, 8, 2),
+                                  (1, 1, 1), (1, 3, 1), (6, 6, 3), (6, 6, 6), (8, 4, 4), (2, 2, 1)]:
+            for k in (1, 2, 3, 5, (3, 1) if Conv is nn.Conv2d else 3):
+                try:
+                    layer = Conv(cin, cout, k, groups=groups)
+                except ValueError:
+                    continue
+                spec = vars(layer)
+                want_dw = (cin == groups and cout == groups)
+                want_3 = all(kk == 3 for kk in layer.kernel_size)
+                ctx.mon('c15.constraint_semantics')
+                n += 1
+                got_dw, got_3 = bool(P.conv_dw_constraint(spec)), bool(P.conv_3_constraint(spec))
+                d = {'type': tname, 'in': cin, 'out': cout, 'groups': groups,
+                     'kernel': list(layer.kernel_size)}
+                if got_dw != want_dw:
+                    ctx.violation('constraint-semantics', dict(d, sig='depthwise', got=got_dw,
+                                                               documented=want_dw))
+                if got_3 != want_3:
+                    ctx.violation('constraint-semantics', dict(d, sig='3x3', got=got_3,
+                                                               documented=want_3))
+                # and the lookup in a specification with [unconstrained, depthwise] registered
+                cspec = CostSpec(shared=True, default_behavior='zero')
+                f_u, f_d = (lambda s_: 'U'), (lambda s_: 'D')
+                t = nn.Conv1d if Conv is nn.Conv1d else nn.Conv2d
+                cspec[(t, P.conv_dw_constraint)] = f_d
+                cspec[(t, None)] = f_u
+                got = cspec[(t, spec)]
+                if got is not (f_d if want_dw else f_u):
+                    ctx.violation('lookup', dict(d, sig='grouped-layer-lookup',
+                                                 got='depthwise fn' if got is f_d else 'other',
+                                                 want='depthwise fn' if want_dw else
+                                                 'unconstrained fn'))
+    ctx.nontriv(('constraint-semantics', n))
+    ctx.nontriv(('constraint-semantics', 'lookups'))
+    ctx.sample({'kind': 'constraint-semantics', 'layers_checked': n})
+
+
 def run_case(case, ctx):
     from plinio.cost import CostSpec
+    if case['type'] == 'constraint-semantics':
+        return run_constraint_semantics(ctx)
     if case['type'] == 'insitu':
         import random
         from vf import pitlib
